@@ -429,9 +429,13 @@ impl<'a> Gen<'a> {
         (Rel::Table { t, name: self.cat.tables[t].name.clone(), alias: a.clone() }, self.table_scope(t, &a))
     }
 
+    fn rel_rows(&self, r: &Rel) -> usize { match r { Rel::Table { t, .. } => self.cat.tables[*t].rows.len().max(1), _ => 20 } }
     fn join_rel(&mut self, n: usize) -> (Rel, Scope) {
         let (mut rel, mut sc) = self.base_rel(true);
+        let mut est = self.rel_rows(&rel);
         for _ in 0..n {
+            // keep the reference interpreter's nested loops (and the quadratic bag comparison) affordable
+            if est > 1500 { break; }
             let (mut r2, mut sc2) = self.base_rel(true);
             // two derived relations with equal column names in one FROM resolve wrongly in the engine (feature `dup_derived_names`)
             let clash = sc2.iter().any(|c| c.derived && sc.iter().any(|d| d.derived && d.name == c.name));
@@ -459,6 +463,8 @@ impl<'a> Gen<'a> {
                 conj.into_iter().reduce(Expr::and)
             };
             self.tag(&format!("join_{}", jt.json()));
+            let has_eq = matches!(&on, Some(Expr::Bin(BinOp::Eq, ..))) || matches!(&on, Some(Expr::Bin(BinOp::And, ..)));
+            est = if matches!(jt, JoinType::Semi | JoinType::Anti) { est } else if has_eq { est.max(self.rel_rows(&r2)) * 3 } else { est * self.rel_rows(&r2) };
             rel = Rel::Join { jt, l: Box::new(rel), r: Box::new(r2), lw, rw, on };
             sc = match jt {
                 JoinType::Semi | JoinType::Anti => sc,
